@@ -75,6 +75,10 @@ def run(ck):
     # ---- R4 termination -------------------------------------------------------------------------------
     r4_termination(ck, [(scope, an), (scope2 - scope, an2)])
     r5_names_the_applier_takes_for_granted(ck)
+    # the apply stage slices the lines of a hunk by its context counts (`content[prefix_fuzz .. len - suffix_fuzz]`, fuzz <= context):
+    # counts that are not the numbers of leading / trailing context lines can exceed the side's length and the slice panics (C01-R6)
+    from . import c01 as _c01
+    _c01.r6(ck, rule="C11-R7")
     r6_scan_stays_inside_the_file(ck)
     # ---- R2 allocations -------------------------------------------------------------------------------
     allocs = [o for o in obl + obl2 if o.kind == "alloc"]
